@@ -572,6 +572,80 @@ func (il *inliner) funcLitSubs(f *ilFile, n ast.Node) []sub {
 	return out
 }
 
+// nestedSites: helper calls nested inside expression e (not the expression itself being a site is not
+// required), provided that hoisting them in front of the statement cannot change behaviour: apart from
+// the helper calls the expression performs no calls (conversions and len/cap excepted), no channel
+// operations and contains no function literal.
+func (il *inliner) nestedSites(f *ilFile, e ast.Node) []*ast.CallExpr {
+	if e == nil {
+		return nil
+	}
+	var sites []*ast.CallExpr
+	pure := true
+	ast.Inspect(e, func(m ast.Node) bool {
+		switch x := m.(type) {
+		case *ast.FuncLit:
+			pure = false
+			return false
+		case *ast.UnaryExpr:
+			if x.Op == token.ARROW {
+				pure = false
+			}
+		case *ast.CallExpr:
+			if c, h := il.siteCall(f, x, false); h != nil && c != nil {
+				// its own arguments must be call-free as well
+				for _, a := range x.Args {
+					ast.Inspect(a, func(k ast.Node) bool {
+						if _, isCall := k.(*ast.CallExpr); isCall {
+							pure = false
+						}
+						return true
+					})
+				}
+				sites = append(sites, x)
+				return false
+			}
+			if tv, ok := f.pkg.TypesInfo.Types[x.Fun]; ok && tv.IsType() {
+				return true // conversion
+			}
+			if id, ok := x.Fun.(*ast.Ident); ok {
+				if _, isB := f.pkg.TypesInfo.Uses[id].(*types.Builtin); isB && (id.Name == "len" || id.Name == "cap") {
+					return true
+				}
+			}
+			pure = false
+		}
+		return true
+	})
+	if !pure {
+		return nil
+	}
+	return sites
+}
+
+// hoist renders `pre; <statement text with the helper calls replaced by temporaries>` for the source
+// range [a,b) of a statement whose expressions contain the helper calls `sites`.
+func (il *inliner) hoist(f *ilFile, a, b token.Pos, sites []*ast.CallExpr, ret *retCtx, endLine int) string {
+	var pre []string
+	var reps []sub
+	for _, c := range sites {
+		_, h := il.siteCall(f, c, false)
+		if h == nil || h.decl.Type.Results == nil || len(h.decl.Type.Results.List) != 1 || len(h.decl.Type.Results.List[0].Names) > 1 {
+			return ""
+		}
+		il.n++
+		tmp := fmt.Sprintf("__h%d", il.n)
+		t := il.expand(f, c, h, kAssign, tmp, ":=", ret, f.line(a))
+		if t == "" {
+			return ""
+		}
+		pre = append(pre, t)
+		reps = append(reps, sub{f.off(c.Pos()), f.off(c.End()), tmp})
+	}
+	_ = endLine
+	return strings.Join(pre, "; ") + "; " + applySubs(f.src, f.off(a), f.off(b), reps)
+}
+
 func (il *inliner) collectStmt(f *ilFile, s ast.Stmt, ret *retCtx, tail bool) []sub {
 	mk := func(text string) []sub {
 		if text == "" {
@@ -585,12 +659,50 @@ func (il *inliner) collectStmt(f *ilFile, s ast.Stmt, ret *retCtx, tail bool) []
 		if call, h := il.siteCall(f, x.X, tail); h != nil {
 			return mk(il.expand(f, call, h, kExpr, "", "", ret, endLine))
 		}
+		if sites := il.nestedSites(f, x.X); len(sites) > 0 {
+			if t := il.hoist(f, s.Pos(), s.End(), sites, ret, endLine); t != "" {
+				return mk("{ " + t + " }")
+			}
+		}
 		return il.funcLitSubs(f, x.X)
 	case *ast.AssignStmt:
 		if len(x.Rhs) == 1 && (x.Tok == token.ASSIGN || x.Tok == token.DEFINE) {
 			if call, h := il.siteCall(f, x.Rhs[0], false); h != nil {
 				lhs := f.text(x.Lhs[0].Pos(), x.Lhs[len(x.Lhs)-1].End())
 				return mk(il.expand(f, call, h, kAssign, lhs, x.Tok.String(), ret, endLine))
+			}
+		}
+		{
+			var sites []*ast.CallExpr
+			okAll := true
+			for _, e := range append(append([]ast.Expr{}, x.Lhs...), x.Rhs...) {
+				ss := il.nestedSites(f, e)
+				if ss == nil {
+					// nil also means "impure": any call in e that is not a helper blocks hoisting
+					hasCall := false
+					ast.Inspect(e, func(k ast.Node) bool {
+						switch k.(type) {
+						case *ast.CallExpr, *ast.FuncLit:
+							hasCall = true
+						}
+						return true
+					})
+					if hasCall {
+						okAll = false
+					}
+				}
+				sites = append(sites, ss...)
+			}
+			if okAll && len(sites) > 0 && x.Tok != token.DEFINE {
+				if t := il.hoist(f, s.Pos(), s.End(), sites, ret, endLine); t != "" {
+					return mk("{ " + t + " }")
+				}
+			}
+			if okAll && len(sites) > 0 && x.Tok == token.DEFINE {
+				// the declared names must stay visible after the statement: no enclosing block
+				if t := il.hoist(f, s.Pos(), s.End(), sites, ret, endLine); t != "" {
+					return mk(t)
+				}
 			}
 		}
 		var out []sub
@@ -655,6 +767,37 @@ func (il *inliner) collectStmt(f *ilFile, s ast.Stmt, ret *retCtx, tail bool) []
 				}
 				tail := applySubs(f.src, f.off(x.Cond.Pos()), f.off(x.End()), inner)
 				return mk("{ " + initText + "; if " + tail + " }")
+			}
+		}
+		if x.Init == nil {
+			if sites := il.nestedSites(f, x.Cond); len(sites) > 0 {
+				var inner []sub
+				var pre []string
+				okH := true
+				for _, c := range sites {
+					_, h := il.siteCall(f, c, false)
+					if h == nil || h.decl.Type.Results == nil || len(h.decl.Type.Results.List) != 1 || len(h.decl.Type.Results.List[0].Names) > 1 {
+						okH = false
+						break
+					}
+					il.n++
+					tmp := fmt.Sprintf("__h%d", il.n)
+					t := il.expand(f, c, h, kAssign, tmp, ":=", ret, f.line(x.Cond.Pos()))
+					if t == "" {
+						okH = false
+						break
+					}
+					pre = append(pre, t)
+					inner = append(inner, sub{f.off(c.Pos()), f.off(c.End()), tmp})
+				}
+				if okH {
+					inner = append(inner, il.collectStmt(f, x.Body, ret, false)...)
+					if x.Else != nil {
+						inner = append(inner, il.collectStmt(f, x.Else, ret, false)...)
+					}
+					tail := applySubs(f.src, f.off(x.Cond.Pos()), f.off(x.End()), inner)
+					return mk("{ " + strings.Join(pre, "; ") + "; if " + tail + " }")
+				}
 			}
 		}
 		var out []sub
